@@ -68,6 +68,11 @@ def check_header(c):
     from ..core import pack_fresh, scribble
 
     pack_fresh(devs, "hist.pack_returns_fresh_buffer", h.pack, want)
+    from ..core import copies_equal
+
+    copies_equal(devs, "hist.copy_of_header", h, lambda o: bytes(o.pack()), want)
+    copies_equal(devs, "hist.copy_of_decoded_header", H.PduHeader.unpack(want), lambda o: obs_header(o), want_obs(c))
+    copies_equal(devs, "hist.copy_of_configuration", build_conf(c), lambda o: bytes(H.PduHeader(d.PduType(c["pdu_type"]), d.SegmentMetadataFlag(c["seg_meta"]), c["dlen"], o).pack()), want)
     buf = bytearray(want + tail)
     u1 = H.PduHeader.unpack(buf)
     scribble(buf)
